@@ -556,6 +556,7 @@ Notes:
         # apply penalty
        #trialEnergy = map(self._penalty, self.trialSolution)#,**self._mapconfig)
         # calculate cost
+        fcalls = len(self._evalmon) # number of evaluations already monitored
         trialEnergy = self._map(cost, self.trialSolution, **self._mapconfig)
 
         # each trialEnergy should be a scalar
@@ -564,9 +565,9 @@ Notes:
             # for len(trialEnergy) > 1, will throw ValueError below
 
         #FIXME: manually adjusts fcalls due to use of map
-        fcalls = len(self._evalmon)
+        fcalls = len(self._evalmon) - fcalls
         if fcalls: # leverage the evalmon
-            self._fcalls[0] = fcalls
+            self._fcalls[0] += fcalls
         else: # use trialEnergy, removing 'skipped' evaluations
             self._fcalls[0] += len(trialEnergy) - isinf(trialEnergy).sum()
 
